@@ -3,6 +3,7 @@ package main
 import (
 	"bufio"
 	"bytes"
+	"math/rand"
 	"reflect"
 	"strings"
 	"sync"
@@ -58,7 +59,14 @@ func runConc(e *emitter, c []int64) {
 			var buf bytes.Buffer
 			w := bufio.NewWriter(&buf)
 			e2 := &emitter{w: w, first: true, shared: shared}
-			runCase(e2, inner)
+			job := inner
+			if len(inner) > 9 && inner[0] == 10 && i > 0 {
+				// letter case of mnemonics does not matter: every goroutine but the first writes the dotted
+				// mnemonics of the text in a spelling of its own, so that spellings are met for the first time
+				// while other assemblies are under way
+				job = append(append([]int64{}, inner[:9]...), recaseOps(inner[9:], int64(i)*7919+int64(len(inner)))...)
+			}
+			runCase(e2, job)
 			w.Flush()
 			results[i] = stripVolatile(buf.String())
 		}(i)
@@ -99,6 +107,54 @@ func runConc(e *emitter, c []int64) {
 }
 
 // goroutine counts and timings differ from run to run by nature
+var opNames = map[string]bool{"dat": true, "mov": true, "add": true, "sub": true, "mul": true, "div": true, "mod": true, "jmp": true, "jmz": true,
+	"jmn": true, "djn": true, "cmp": true, "seq": true, "sne": true, "slt": true, "spl": true, "nop": true}
+
+// recaseOps rewrites the letters of every word of the form opcode.modifier outside comments in random case
+func recaseOps(text []int64, seed int64) []int64 {
+	r := rand.New(rand.NewSource(seed))
+	out := append([]int64{}, text...)
+	isWord := func(c int64) bool {
+		return (c >= 'a' && c <= 'z') || (c >= 'A' && c <= 'Z') || (c >= '0' && c <= '9') || c == '_' || c == '.'
+	}
+	inComment := false
+	for i := 0; i < len(out); {
+		c := out[i]
+		if c == '\n' {
+			inComment = false
+		} else if c == ';' {
+			inComment = true
+		}
+		if inComment || !isWord(c) {
+			i++
+			continue
+		}
+		j := i
+		for j < len(out) && isWord(out[j]) {
+			j++
+		}
+		w := make([]byte, 0, j-i)
+		for k := i; k < j; k++ {
+			w = append(w, byte(out[k]))
+		}
+		lw := strings.ToLower(string(w))
+		if d := strings.IndexByte(lw, '.'); d > 0 && opNames[lw[:d]] {
+			for k := i; k < j; k++ {
+				ch := out[k]
+				if ch >= 'A' && ch <= 'Z' {
+					ch += 32
+				}
+				if ch >= 'a' && ch <= 'z' && r.Intn(2) == 0 {
+					ch -= 32
+				}
+				out[k] = ch
+			}
+		}
+		i = j
+	}
+	return out
+}
+
 func stripVolatile(s string) string {
 	var keep []string
 	for _, part := range strings.Split(s, " | ") {
